@@ -134,7 +134,7 @@ int main(int argc, char** argv) {
           ctx.worstf(std::string("conjugate.minus_m12_over_tol.") + svn, (double)(-pf.m12 / (4 * tol)), where);
           if (!(pf.m12 >= -4 * tol)) bad("conjugate", "", "a conjugate point lies inside the returned geodesic: true m12 = " + fmtl(pf.m12));
           ld ext = fabsl(pf.lon12) - geod_ode::pi<ld>();
-          if (!(ext * hypotl(pf.r[0], pf.r[1]) <= tol)) bad("extent", "", "longitudinal extent " + fmtl(fabsl(pf.lon12) / D) + " deg exceeds 180");
+          if (!(ext * hypotl(pf.r[0], pf.r[1]) <= tol)) bad(acc("extent", ext * hypotl(pf.r[0], pf.r[1])), "ext", "longitudinal extent " + fmtl(fabsl(pf.lon12) / D) + " deg exceeds 180");
           // ---- a12 against the defining integral
           ld der, sg = geod_ode::dist_to_arc<ld>(E.e, pf, &der); dsd[sv] = der * D;
           ld ea = fabsl((ld)R.a12 - sg / D) * der * D;
